@@ -36,7 +36,19 @@ const (
 	pvStruct // a literal struct value: field name -> value
 	pvMap    // a literal map: keys in literal order
 	pvType   // the resolved type of the parent expression (abstracted to: integer / other)
+	pvAbs    // a part of an abstract dsl.Type shape (rule J1): s = type | gt | dim | keytype | cases | case0 | scalar | def | nil
 )
+
+// tshape: the shape of a dsl.Type as far as the JSON kind table can depend on it.
+type tshape struct {
+	null    bool
+	dim     string // "", Vector, Array, Map
+	fixed   bool
+	keyPrim string // primitive of a map's key type; "" = not a primitive
+	def     string // PrimitiveDefinition | EnumDefinition | RecordDefinition | GenericTypeParameter
+	prim    string
+	flags   bool
+}
 
 type pval struct {
 	k    pvKind
@@ -114,6 +126,8 @@ type pinterp struct {
 	wantValue bool
 	// a numeric type change: the primitive before and after (values of dsl.PrimitiveDefinition constants)
 	oldPrim, newPrim string
+	// the type shape under evaluation (rule J1)
+	shape *tshape
 }
 
 func (pi *pinterp) fail(what string) {
@@ -215,6 +229,29 @@ func (pi *pinterp) eval(info *types.Info, e ast.Expr, env *penv) pval {
 			}
 			return pval{}
 		}
+		if base.k == pvAbs && pi.shape != nil {
+			switch base.s + "." + x.Sel.Name {
+			case "gt.Dimensionality":
+				if pi.shape.dim == "" {
+					return pval{k: pvAbs, s: "nil"}
+				}
+				return pval{k: pvAbs, s: "dim"}
+			case "gt.Cases":
+				return pval{k: pvAbs, s: "cases"}
+			case "dim.KeyType":
+				return pval{k: pvAbs, s: "keytype"}
+			case "case0.Type":
+				return pval{k: pvAbs, s: "scalar"}
+			case "scalar.ResolvedDefinition":
+				if pi.shape.def == "PrimitiveDefinition" {
+					return pval{k: pvString, s: pi.shape.prim}
+				}
+				return pval{k: pvAbs, s: "def"}
+			case "def.IsFlags":
+				return pval{k: pvBool, b: pi.shape.flags}
+			}
+			return pval{}
+		}
 		if base.k == pvType && x.Sel.Name == "ResolvedDefinition" && (base.s == "old" || base.s == "new") {
 			if base.s == "old" {
 				return pval{k: pvString, s: pi.oldPrim}
@@ -277,6 +314,28 @@ func (pi *pinterp) eval(info *types.Info, e ast.Expr, env *penv) pval {
 			return pval{}
 		}
 		l, r := pi.eval(info, x.X, env), pi.eval(info, x.Y, env)
+		if x.Op == token.EQL || x.Op == token.NEQ {
+			// comparison of a part of the abstract type with nil
+			isNil := func(e ast.Expr) bool { tv, ok := info.Types[e]; return ok && tv.IsNil() }
+			abs, other := l, x.Y
+			if isNil(x.X) {
+				abs, other = r, x.X
+			}
+			if abs.k == pvAbs && isNil(other) && pi.shape != nil {
+				null := abs.s == "nil" || (abs.s == "type" && pi.shape.null)
+				return pval{k: pvBool, b: null == (x.Op == token.EQL)}
+			}
+		}
+		if l.k == pvInt && r.k == pvInt {
+			switch x.Op {
+			case token.OR:
+				return pval{k: pvInt, n: l.n | r.n}
+			case token.AND:
+				return pval{k: pvInt, n: l.n & r.n}
+			case token.SHL:
+				return pval{k: pvInt, n: l.n << uint(r.n)}
+			}
+		}
 		if l.k == pvString && r.k == pvString {
 			switch x.Op {
 			case token.ADD:
@@ -344,6 +403,9 @@ func (pi *pinterp) eval(info *types.Info, e ast.Expr, env *penv) pval {
 	case *ast.IndexExpr:
 		base := pi.eval(info, x.X, env)
 		idx := pi.eval(info, x.Index, env)
+		if base.k == pvAbs && base.s == "cases" && idx.k == pvInt && idx.n == 0 {
+			return pval{k: pvAbs, s: "case0"}
+		}
 		switch base.k {
 		case pvList:
 			if (idx.k == pvInt || idx.k == pvOp) && idx.n >= 0 && int(idx.n) < len(base.list) {
@@ -371,6 +433,76 @@ func (pi *pinterp) eval(info *types.Info, e ast.Expr, env *penv) pval {
 		return pi.eval(info, x.X, env)
 	}
 	return pval{}
+}
+
+// absIs: does the abstract value have the dynamic type written by texpr? (known=false: outside the domain)
+func (pi *pinterp) absIs(info *types.Info, v pval, texpr ast.Expr) (bool, bool) {
+	if pi.shape == nil {
+		return false, false
+	}
+	if tv, ok := info.Types[texpr]; ok && tv.IsNil() {
+		switch {
+		case v.k == pvAbs && v.s == "nil":
+			return true, true
+		case v.k == pvAbs && v.s == "type":
+			return pi.shape.null, true
+		case v.k == pvAbs || v.k == pvString:
+			return false, true
+		}
+		return false, false
+	}
+	t := info.TypeOf(texpr)
+	if t == nil {
+		return false, false
+	}
+	name := ""
+	if nt := core.NamedOf(t); nt != nil {
+		name = nt.Obj().Name()
+	}
+	_, isIface := t.Underlying().(*types.Interface)
+	switch {
+	case v.k == pvString: // a primitive definition
+		if name == "PrimitiveDefinition" {
+			return true, true
+		}
+		if isIface {
+			return name == "TypeDefinition" || name == "Node", true
+		}
+		return false, true
+	case v.k == pvAbs && v.s == "nil":
+		return false, true
+	case v.k == pvAbs && v.s == "dim":
+		if isIface {
+			return name == "Dimensionality" || name == "Node", true
+		}
+		return name == pi.shape.dim, true
+	case v.k == pvAbs && v.s == "def":
+		if isIface {
+			return name == "TypeDefinition" || name == "Node", true
+		}
+		return name == pi.shape.def, true
+	case v.k == pvAbs && v.s == "scalar":
+		if isIface {
+			return name == "Type" || name == "Node", true
+		}
+		return name == "SimpleType", true
+	case v.k == pvAbs && (v.s == "type" || v.s == "gt"):
+		if pi.shape.null && v.s == "type" {
+			return false, true
+		}
+		if isIface {
+			return name == "Type" || name == "Node", true
+		}
+		if v.s == "gt" {
+			return name == "GeneralizedType", true
+		}
+		// the parameter itself: a scalar shape is a *SimpleType, anything with a dimensionality a *GeneralizedType
+		if pi.shape.dim == "" {
+			return name == "SimpleType", true
+		}
+		return name == "GeneralizedType", true
+	}
+	return false, false
 }
 
 // global: the value of a package-level variable initialised once with a literal (a lookup table).
@@ -551,7 +683,9 @@ func (pi *pinterp) call(info *types.Info, ce *ast.CallExpr, env *penv) []pval {
 		}
 		if id.Name == "len" && len(ce.Args) == 1 {
 			if _, isB := info.Uses[id].(*types.Builtin); isB {
-				if v := pi.eval(info, ce.Args[0], env); v.k == pvList || v.k == pvMap {
+				if v := pi.eval(info, ce.Args[0], env); v.k == pvAbs && v.s == "cases" {
+					return []pval{{k: pvInt, n: 1}}
+				} else if v.k == pvList || v.k == pvMap {
 					return []pval{{k: pvInt, n: int64(len(v.list))}}
 				} else if v.k == pvString {
 					return []pval{{k: pvInt, n: int64(len(v.s))}}
@@ -679,6 +813,25 @@ func (pi *pinterp) call(info *types.Info, ce *ast.CallExpr, env *penv) []pval {
 			}
 			pi.events = append(pi.events, "emit:"+txt)
 			return nil
+		case pi.shape != nil && f.Name() == "ToGeneralizedType" && len(ce.Args) == 1:
+			if v := pi.eval(info, ce.Args[0], env); v.k == pvAbs && (v.s == "type" || v.s == "gt") {
+				return []pval{{k: pvAbs, s: "gt"}}
+			}
+			return []pval{{}}
+		case pi.shape != nil && f.Name() == "GetUnderlyingType" && len(ce.Args) == 1:
+			return []pval{pi.eval(info, ce.Args[0], env)}
+		case pi.shape != nil && f.Name() == "IsFixed" && len(ce.Args) == 0:
+			if se, ok := ast.Unparen(ce.Fun).(*ast.SelectorExpr); ok {
+				if recv := pi.eval(info, se.X, env); recv.k == pvAbs && recv.s == "dim" {
+					return []pval{{k: pvBool, b: pi.shape.fixed}}
+				}
+			}
+			return []pval{{}}
+		case pi.shape != nil && f.Name() == "GetPrimitiveType" && len(ce.Args) == 1:
+			if v := pi.eval(info, ce.Args[0], env); v.k == pvAbs && v.s == "keytype" {
+				return []pval{{k: pvString, s: pi.shape.keyPrim}, {k: pvBool, b: pi.shape.keyPrim != ""}}
+			}
+			return []pval{{}, {}}
 		case (f.Name() == "OldType" || f.Name() == "NewType") && len(ce.Args) == 0 && pi.oldPrim != "":
 			if se, ok := ast.Unparen(ce.Fun).(*ast.SelectorExpr); ok {
 				if recv := pi.eval(info, se.X, env); recv.k == pvNode && recv.s == "change" {
@@ -721,7 +874,7 @@ func (pi *pinterp) call(info *types.Info, ce *ast.CallExpr, env *penv) []pval {
 				// function literal; anything else (identifier helpers, type syntax, ...) has no effect on the trace
 				relevant := false
 				for _, a := range ce.Args {
-					if v := pi.eval(info, a, env); (v.k == pvNode && v.s != "change") || v.k == pvOp || (v.k == pvType && (v.s == "int" || v.s == "other")) || (v.k == pvClosure && v.lit == nil) || (v.k == pvBool && len(ce.Args) > 1 && f.Pkg() != nil && !strings.HasSuffix(f.Pkg().Path(), "/pkg/dsl")) {
+					if v := pi.eval(info, a, env); (v.k == pvNode && v.s != "change") || v.k == pvOp || v.k == pvAbs || (pi.shape != nil && v.k == pvString) || (v.k == pvType && (v.s == "int" || v.s == "other")) || (v.k == pvClosure && v.lit == nil) || (v.k == pvBool && len(ce.Args) > 1 && f.Pkg() != nil && !strings.HasSuffix(f.Pkg().Path(), "/pkg/dsl")) {
 						relevant = true
 					}
 				}
@@ -829,6 +982,9 @@ func (pi *pinterp) exec(info *types.Info, list []ast.Stmt, env *penv) pctl {
 					okv := pval{}
 					if v.k == pvNode && types.ExprString(ta.Type) == "*dsl.BinaryExpression" {
 						okv = pval{k: pvBool, b: pi.opOf(v.s) != ""}
+					}
+					if m, known := pi.absIs(info, v, ta.Type); known {
+						okv = pval{k: pvBool, b: m}
 					}
 					pi.bind(info, s.Lhs[0], v, env, s.Tok)
 					pi.bind(info, s.Lhs[1], okv, env, s.Tok)
@@ -1065,7 +1221,55 @@ func (pi *pinterp) exec(info *types.Info, list []ast.Stmt, env *penv) pctl {
 			}
 		case *ast.DeferStmt:
 			// deferred emissions run at the end; the parenthesisation decision does not depend on them
-		case *ast.TypeSwitchStmt, *ast.SelectStmt, *ast.GoStmt:
+		case *ast.TypeSwitchStmt:
+			if pi.shape == nil {
+				pi.fail("*ast.TypeSwitchStmt inside the evaluated clause")
+				return ctlReturn
+			}
+			scope := &penv{vars: map[types.Object]pval{}, parent: env}
+			if s.Init != nil {
+				pi.exec(info, []ast.Stmt{s.Init}, scope)
+			}
+			var subj ast.Expr
+			switch a := s.Assign.(type) {
+			case *ast.AssignStmt:
+				subj = a.Rhs[0].(*ast.TypeAssertExpr).X
+			case *ast.ExprStmt:
+				subj = a.X.(*ast.TypeAssertExpr).X
+			}
+			v := pi.eval(info, subj, scope)
+			var chosen, dflt *ast.CaseClause
+			for _, cl := range s.Body.List {
+				cc := cl.(*ast.CaseClause)
+				if cc.List == nil {
+					dflt = cc
+					continue
+				}
+				for _, e := range cc.List {
+					m, known := pi.absIs(info, v, e)
+					if !known {
+						pi.fail("type switch on `" + types.ExprString(subj) + "`: case " + types.ExprString(e))
+						return ctlReturn
+					}
+					if m && chosen == nil {
+						chosen = cc
+					}
+				}
+			}
+			if chosen == nil {
+				chosen = dflt
+			}
+			if chosen != nil {
+				ce := &penv{vars: map[types.Object]pval{}, parent: scope}
+				if o := info.Implicits[chosen]; o != nil {
+					ce.vars[o] = v
+				}
+				ctl := pi.exec(info, chosen.Body, ce)
+				if ctl == ctlReturn || ctl == ctlContinue {
+					return ctl
+				}
+			}
+		case *ast.SelectStmt, *ast.GoStmt:
 			pi.fail(fmt.Sprintf("%T inside the binary-expression case", s))
 			return ctlReturn
 		}
@@ -1326,6 +1530,57 @@ func conversionWrapped(c *core.Ctx, info *types.Info, d *ast.FuncDecl) (bool, bo
 		return false, false, ""
 	}
 	return true, all, witness
+}
+
+// kindDecisions evaluates a function of one dsl.Type parameter that returns a bit mask (ndjsoncommon.GetJsonDataType)
+// for one abstract type shape; every combination of the conditions outside the domain is explored and the masks are
+// or-ed. Returns (mask, decided, why not).
+func kindDecisions(c *core.Ctx, info *types.Info, d *ast.FuncDecl, sh tshape) (int64, bool, string) {
+	params := paramObjs(info, d)
+	if len(params) != 1 || params[0] == nil {
+		return 0, false, "expected one parameter"
+	}
+	var mask int64
+	runs := 0
+	why := ""
+	var explore func(choices []bool) bool
+	explore = func(choices []bool) bool {
+		shc := sh
+		pi := &pinterp{c: c, choices: choices, shape: &shc}
+		env := &penv{vars: map[types.Object]pval{params[0]: {k: pvAbs, s: "type"}}}
+		pi.exec(info, d.Body.List, env)
+		if pi.unknown != "" {
+			why = pi.unknown
+			return false
+		}
+		if pi.asked > len(choices) {
+			for _, b := range []bool{false, true} {
+				if !explore(append(append([]bool(nil), choices...), b)) {
+					return false
+				}
+			}
+			return true
+		}
+		for _, ev := range pi.events {
+			if ev == "panic" {
+				return true // the function aborts for this shape: no kinds
+			}
+		}
+		if len(pi.ret) != 1 || pi.ret[0].k != pvInt {
+			why = "the result is not a constant mask"
+			return false
+		}
+		mask |= pi.ret[0].n
+		runs++
+		return true
+	}
+	if !explore(nil) {
+		return 0, false, why
+	}
+	if runs == 0 {
+		return 0, true, ""
+	}
+	return mask, true, ""
 }
 
 func sortedScen(m map[pscen]bool) []pscen {
